@@ -657,6 +657,129 @@ def rule_cover(chk, w):
             chk.fail("COVER", n_, "%s never reads %s: the encoding loses it" % (n_, missing), fs[0].span.loc())
 
 
+def rule_tscope(chk, w2):
+    """TSCOPE: BIP 44 transparent derivation has three key scopes below the account, child 0 (external),
+    1 (internal / change) and 2 (ephemeral). A function of zcash_transparent::keys that names a scope
+    (derive_internal_secret_key, derive_external_ivk, ...) must use that scope and no other: every scope
+    value in its body - a zip32::Scope variant, a TransparentKeyScope constant, the literal child number of
+    ChildNumber::new(k, false), the *Ivk wrapper type it returns - carries the scope of its name. The
+    table behind the names is checked too: EXTERNAL = 0, INTERNAL = 1, EPHEMERAL = 2 and
+    From<zip32::Scope> maps External / Internal onto the first two."""
+    TAG = {"external": 0, "internal": 1, "ephemeral": 2}
+    n = 0
+    for f in sorted(w2.fns.values(), key=lambda f: f.p):
+        if f.crate.name != "zcash_transparent" or f.is_closure() or f.body is None or "::tests::" in f.p or \
+                "::testing" in f.p or not f.p.startswith("zcash_transparent::keys::"):
+            continue
+        last = f.p.rsplit("::", 1)[-1]
+        m = re.search(r"(external|internal|ephemeral)", last)
+        if not m:
+            continue
+        want = TAG[m.group(1)]
+        seen = []
+        b = f.body
+        for bb, blk in enumerate(b.blocks):
+            if blk.cleanup:
+                continue
+            ops = []
+            for st in blk.stmts:
+                if st.kind != "=":
+                    continue
+                if st.rv.kind == "agg" and st.rv.agg[0] == "adt" and st.rv.agg[1] == "zip32::Scope":
+                    seen.append(("zip32::Scope::" + st.rv.agg[2], {"External": 0, "Internal": 1}.get(st.rv.agg[2])))
+                ops += list(st.rv.ops or [])
+            t = blk.term
+            if t.kind == "call":
+                ops += list(t.args)
+                if t.callee.indirect is None and t.callee.target_p().endswith("bip32::ChildNumber::new") and len(t.args) == 2 \
+                        and all(a.kind == "const" for a in t.args) and t.args[1].info.get("v") == 0 and \
+                        isinstance(t.args[0].info.get("v"), int) and t.args[0].info["v"] <= 2:
+                    seen.append(("ChildNumber::new(%d, false)" % t.args[0].info["v"], t.args[0].info["v"]))
+            for o in ops:
+                if o.kind != "const":
+                    continue
+                ty = o.info.get("ty") or ""
+                if ty.endswith("TransparentKeyScope") and isinstance(o.info.get("v"), int):
+                    seen.append(("TransparentKeyScope(%d)" % o.info["v"], o.info["v"]))
+                fnp = o.info.get("p") or ""
+                mm = re.search(r"keys::(External|Internal|Ephemeral)Ivk$", fnp) if "fn" in o.info else None
+                if mm:
+                    seen.append((mm.group(1) + "Ivk", TAG[mm.group(1).lower()]))
+        if not seen:
+            continue
+        n += 1
+        bad = [nm for nm, v in seen if v != want]
+        if not bad:
+            chk.ok("TSCOPE", "%s uses the %s scope only (%s)" % (last, m.group(1), ", ".join(sorted({nm for nm, _v in seen}))),
+                   sample=(n == 1))
+        else:
+            chk.fail("TSCOPE", last, "%s names the %s scope but derives with %s" % (last, m.group(1), bad), f.span.loc())
+    # the table
+    tks = "zcash_transparent::keys::TransparentKeyScope::"
+    vals = {k: (w2.consts.get(tks + k) or {}).get("v") for k in ("EXTERNAL", "INTERNAL", "EPHEMERAL")}
+    frm = [f for f in w2.fns.values() if re.search(r"TransparentKeyScope as core::convert::From<zip32::Scope>>::from$", f.p)]
+    if frm:
+        n += 1
+        b = frm[0].body
+        pairs = set()
+        for bi, blk in enumerate(b.blocks):
+            t = blk.term
+            if t.kind == "switch" and not blk.cleanup:
+                for v, tb in list(t.arms) + [("else", t.otherwise)]:
+                    if tb is None:
+                        continue
+                    for st in b.blocks[tb].stmts:
+                        if st.kind == "=" and st.place.local == 0 and st.rv.kind == "use" and st.rv.ops[0].kind == "const":
+                            pairs.add((v, st.rv.ops[0].info.get("v")))
+        good = pairs in ({(0, 0), (1, 1)}, {(0, 0), ("else", 1)}, {("else", 0), (1, 1)})
+        if good:
+            chk.ok("TSCOPE", "From<zip32::Scope>: External -> child 0, Internal -> child 1")
+        else:
+            chk.fail("TSCOPE", "from-scope", "From<zip32::Scope> for TransparentKeyScope maps (variant, child) as %s"
+                     % sorted(pairs, key=str), frm[0].span.loc())
+    if n < 6:
+        chk.fail("TSCOPE", "sites", "expected at least the five scope-named derivation functions and the scope conversion, "
+                 "found %d" % n)
+
+
+def rule_narrow(chk, w):
+    """NARROW: a unified address takes its transparent receiver at the child index given by the diversifier
+    index, which has 88 bits while a BIP 32 non-hardened child index has 31. The conversion must refuse
+    an index whose discarded high bytes are not all zero - otherwise indices j and j + k * 2^32 share a
+    transparent receiver and the key no longer recovers the index of its address. Accepted forms: a test
+    over the high part of the split byte string whose `true` outcome yields None, or the checked
+    `u32::try_from(DiversifierIndex)` conversion."""
+    import assume as S
+    fs = [f for f in w.fns.values() if f.p == "zcash_keys::keys::to_transparent_child_index"]
+    if len(fs) != 1:
+        chk.fail("NARROW", "missing", "to_transparent_child_index not found")
+        return
+    f = fs[0]
+    b = f.body
+    du = defuse.DefUse(b)
+    good = None
+    for bb, t in b.calls():
+        if b.blocks[bb].cleanup or t.callee.indirect is not None or t.dest is None:
+            continue
+        name = t.callee.target_p()
+        if re.search(r"TryFrom<zip32::DiversifierIndex>>::try_from$|TryInto<u32>>::try_into$", name):
+            good = "the checked u32::try_from(DiversifierIndex)"
+        if re.search(r"Iterator>?::(any|all)(::<.*>)?$", name):
+            src = defuse.show(du.origin(t.args[0]))
+            if re.search(r"split_at\(.*\)\)?\.1", src) or re.search(r"\[4\.\.|RangeFrom\{4\}", src):
+                want = name.split("::<")[0].endswith("any")
+                res = S.after_call(b, bb, S.B(want))
+                rets = {rv for _b, rv in res.returns} if res is not None else {"?"}
+                if rets and rets <= {"variant:None"}:
+                    good = "a test over the bytes above the low four whose failure yields None"
+    if good:
+        chk.ok("NARROW", "to_transparent_child_index narrows the diversifier index through %s" % good, sample=True)
+    else:
+        chk.fail("NARROW", "to_transparent_child_index", "the diversifier index is narrowed to a 32-bit child index without "
+                 "refusing non-zero high bytes: indices that differ by a multiple of 2^32 map to the same transparent "
+                 "receiver", f.span.loc())
+
+
 def main(tier):
     chk = Check("C11", "other", tier)
     chk.explanation = (
@@ -678,6 +801,8 @@ def main(tier):
     chk.rule("INDEX", "every receiver of a unified address is derived at the requested index", floor=3)
     chk.rule("EXTSCOPE", "the UIVK derived from a UFVK is the external-scope key, per component", floor=3)
     chk.rule("COVER", "the item-list encoders read every field of their key", floor=2)
+    chk.rule("NARROW", "the diversifier index is narrowed to a child index with its high bytes checked", floor=1)
+    chk.rule("TSCOPE", "scope-named transparent derivation functions use the scope they name", floor=6)
     w = zf.World(extract.facts_dir("all"), ["zcash_keys", "zcash_address"])
     counts = {"slot": 0, "arm": 0}
     roots = [f for f in w.fns.values() if f.crate.name == "zcash_keys" and not f.is_closure() and
@@ -692,4 +817,6 @@ def main(tier):
     rule_index(chk, w)
     rule_extscope(chk, w)
     rule_cover(chk, w)
+    rule_narrow(chk, w)
+    rule_tscope(chk, zf.World(extract.facts_dir("all"), ["zcash_transparent"]))
     chk.finish()
